@@ -1047,6 +1047,77 @@ def report(res, out=sys.stdout):
                 n, "; ".join(c.describe(i) for i in bad[:6])), file=out)
 
 
+def pointer_escapes(prog):
+    """REPORT ONLY (source-order approximation, no certificate): per function, locals that are assigned inside
+    the function from a container/node field (or a struct copy of a node) and are used -- dereferenced, member
+    accessed, or passed to a call -- at a source position AFTER the last unlock call of that function.
+    -> [(function, local, first use line, how)]"""
+    out = []
+    for f in prog.order:
+        unlocks, saved, uses = [], {}, []
+
+        def is_unlock(call):
+            c = strip_casts(call["inner"][0])
+            if c.get("kind") == "DeclRefExpr":
+                nm = c.get("referencedDecl", {}).get("name", "")
+                return nm == M_LEAVE or prog.primitive.get((f.unit, nm)) == "unlock" or \
+                    (prog.lookup(f.unit, nm) and prog.primitive.get((prog.lookup(f.unit, nm).unit, nm)) == "unlock")
+            if c.get("kind") == "MemberExpr":
+                return c.get("name") == "unlock"
+            return False
+
+        def has_field(e):
+            if e.get("kind") == "MemberExpr":
+                t = base_type(e["inner"][0]["type"]["qualType"])
+                if CONTAINER_T.match(t) or NODE_T.match(t):
+                    return True
+            if e.get("kind") == "UnaryOperator" and e.get("opcode") == "*":
+                t = base_type(e["inner"][0].get("type", {}).get("qualType", ""))
+                if NODE_T.match(t):
+                    return True
+            return any(has_field(c) for c in e.get("inner", []) if isinstance(c, dict))
+
+        def walk(n, parent=None):
+            k = n.get("kind")
+            if k == "CallExpr" and is_unlock(n):
+                unlocks.append(node_offset(n) or 0)
+            if k == "VarDecl" and n.get("inner"):
+                init = [c for c in n["inner"] if "kind" in c]
+                ty = n.get("type", {}).get("qualType", "")
+                if init and has_field(init[0]) and ("*" in ty or NODE_T.match(base_type(ty))):
+                    saved[n["id"]] = n.get("name")
+            if k == "BinaryOperator" and n.get("opcode") == "=":
+                l = strip_casts(n["inner"][0])
+                if l.get("kind") == "DeclRefExpr" and l.get("referencedDecl", {}).get("kind") == "VarDecl" and has_field(n["inner"][1]):
+                    ty = l.get("type", {}).get("qualType", "")
+                    if "*" in ty or NODE_T.match(base_type(ty)):
+                        saved[l["referencedDecl"]["id"]] = l["referencedDecl"].get("name")
+            if k == "DeclRefExpr" and n.get("referencedDecl", {}).get("kind") == "VarDecl" and parent is not None:
+                pk = parent.get("kind")
+                how = None
+                if pk == "MemberExpr":
+                    how = "member access"
+                elif pk == "UnaryOperator" and parent.get("opcode") == "*":
+                    how = "dereference"
+                elif pk == "CallExpr":
+                    how = "passed to " + (strip_casts(parent["inner"][0]).get("referencedDecl", {}).get("name") or "a call")
+                if how:
+                    uses.append((n["referencedDecl"]["id"], node_offset(n) or 0, how))
+            for c in n.get("inner", []):
+                if isinstance(c, dict):
+                    walk(c, n if k not in ("ImplicitCastExpr", "ParenExpr", "CStyleCastExpr") else parent)
+        walk(f.body)
+        if not unlocks or not saved:
+            continue
+        last = max(unlocks)
+        seen = set()
+        for vid, off, how in sorted(uses, key=lambda x: x[1]):
+            if vid in saved and off > last and (vid, how) not in seen:
+                seen.add((vid, how))
+                out.append((f.name, saved[vid], "%s:%d" % (os.path.basename(f.file), f.src.line(off)), how))
+    return out
+
+
 def print_table(res, out=sys.stdout):
     for n, sec, cls, sl in res.table:
         print("%-22s %-2s %s%s" % (n, sec, cls, (" -> " + ", ".join(sl)) if sl else ""), file=out)
@@ -1058,3 +1129,6 @@ if __name__ == "__main__":
     report(r)
     if "--table" in sys.argv:
         print_table(r)
+    if "--escapes" in sys.argv:
+        for row in pointer_escapes(r.prog):
+            print("escape: %-24s local %-10s used after the last unlock at %s (%s)" % row)
